@@ -15,9 +15,15 @@ CHECKS = {
         note="trusted: TLC, the shim's mirror of the applyResumeInfo lock regions (bound by the end-to-end runs), bounds chunks<=4 workers<=3"),
 }
 
+CHECKS["C12"] = dict(
+    category="model_checking", design_ref="5.7",
+    technique="TLA+ spec Admission.tla checked exhaustively with TLC (all event sequences to a depth bound) and by simulation; every transition replayed on a real SnapshotSender with stub transfers",
+    text="TLC enumerates every sequence of join/accept/leave/complete/tick events over 3 receivers up to the depth bound for max-receivers 1 and 2 (11 invariants incl. live-transfer bound, FIFO, no silent drop, work conservation); each transition is replayed on the real SnapshotSender, comparing queue/slots/statuses/emitted messages with the spec and evaluating the property on the stub-transfer census after every event.",
+    note="trusted: TLC, the stub transfer function as ground truth, the environment assumption join->accept*->leave per receiver; bounds 3 receivers, depth 8 (quick) / 10 (thorough) + simulated depth 40/60")
+
 NOT_APPLICABLE = {}
 
-HOOK_COMMITS = ["6b59734"]
+HOOK_COMMITS = ["6b59734", "6335744"]
 
 
 def main():
